@@ -107,6 +107,13 @@ func (v *fnVC) assume(t T) {
 	if t == "true" {
 		return
 	}
+	if strings.HasPrefix(t, "(and ") {
+		// one assertion per conjunct: keeps the quantifier-free part usable on its own
+		for _, c := range splitSexp(t[5 : len(t)-1]) {
+			v.assume(c)
+		}
+		return
+	}
 	// every fact is guarded by the reachability of the block that produced it: facts of a block
 	// that is an ancestor only along another path must not constrain this path
 	if r := v.reach[v.blk]; r != "" && r != "true" && !v.unguarded {
@@ -207,8 +214,9 @@ func (v *fnVC) addInput(term T, param, field, kind string, idx int, ty types.Typ
 }
 
 type allocRec struct {
-	t   T
-	blk *ssa.BasicBlock
+	t     T
+	blk   *ssa.BasicBlock
+	alloc *ssa.Alloc // non-nil for the cell of a named source variable
 }
 
 // frameAlts lists the ways a written address may be legitimate: it belongs to an object that was not
@@ -243,7 +251,7 @@ func (v *fnVC) frameAltsK(addr T, mapRef bool) ([]T, bool) {
 		case strings.HasPrefix(m, "tree("):
 			ex, _ := parseExpr(m[5 : len(m)-1])
 			t, _ := v.tr(ex, env)
-			v.P.add("inTree", "(declare-fun inTree (Int Int) Bool)")
+			v.P.add("inTree", inTreeDecl)
 			alts = append(alts, app("inTree", t, app("root", addr)))
 		case strings.HasPrefix(m, "elems("):
 			ex, _ := parseExpr(m[6 : len(m)-1])
@@ -273,6 +281,11 @@ func (v *fnVC) frameCheck(addr T, text string, pos token.Pos) {
 // at entry and is outside the modifies clause still holds its entry value; this is assumed for the
 // memories havoc'd at a loop head (otherwise every loop would have to restate it as an invariant).
 func (v *fnVC) loopFrame(mems []string) {
+	for _, m := range v.con.Modifies {
+		if strings.HasPrefix(m, "tree(") {
+			return // whole-subtree frames: the fact would be as expensive as the invariants it replaces
+		}
+	}
 	altsA, ok := v.frameAlts("fa")
 	if !ok {
 		return
@@ -310,8 +323,9 @@ func (v *fnVC) frameCheckTree(t T, text string, pos token.Pos) {
 		if strings.HasPrefix(m, "tree(") {
 			ex, _ := parseExpr(m[5 : len(m)-1])
 			mine, _ := v.tr(ex, env)
-			v.P.add("inTree", "(declare-fun inTree (Int Int) Bool)")
-			alts = append(alts, eq(mine, t), fmt.Sprintf("(forall ((x Int)) (=> (inTree %s x) (inTree %s x)))", t, mine))
+			v.P.add("inTree", inTreeDecl)
+			v.P.add("subtree", "(declare-fun subtree (Int Int) Bool)")
+			alts = append(alts, eq(mine, t), app("subtree", t, mine), fmt.Sprintf("(forall ((x Int)) (=> (inTree %s x) (inTree %s x)))", t, mine))
 		}
 	}
 	v.oblige("frame.call", text, or(alts...), pos)
@@ -362,7 +376,7 @@ func (v *fnVC) distinctFromAllocs(a T) {
 		v.assume(not(sel(v.mem0(allocMem), a)))
 	}
 	v.setMem(allocMem, sto(cur, a, "true"))
-	v.allocs = append(v.allocs, allocRec{a, v.blk})
+	v.allocs = append(v.allocs, allocRec{t: a, blk: v.blk})
 }
 
 // allocGrow models allocation by a callee: the allocated set may only grow.
@@ -535,6 +549,11 @@ func (v *fnVC) loadAt(addr T, t types.Type, snap map[string]T) T {
 		switch t.Underlying().(type) {
 		case *types.Slice:
 			ref = app("sbase", res)
+			if gk := fmt.Sprint(v.blk.Index, "sz", res); !v.grounded[gk] {
+				// size invariants of every slice value read from memory
+				v.grounded[gk] = true
+				v.assume(and(app("<=", "0", app("slen_", res)), app("<=", app("slen_", res), app("scap", res)), app("<=", "0", app("soff", res)), app("<=", app("+", app("soff", res), app("scap", res)), "9223372036854775807")))
+			}
 		case *types.Pointer, *types.Map, *types.Chan:
 			ref = res
 		case *types.Interface:
@@ -691,7 +710,7 @@ func (v *fnVC) val(x ssa.Value) T {
 		v.vals[x] = t
 		if _, ok := c.Type().Underlying().(*types.Pointer); ok {
 			// closure bindings are addresses of the enclosing function's variables: never nil
-			v.P.add("fvnn:"+v.fn.String()+n, fmt.Sprintf("(assert (not (= |%s| 0)))", n))
+			v.P.add("fvnn:"+v.fn.String()+n, fmt.Sprintf("(assert (and (not (= |%s| 0)) (= (akind |%s|) 0) (= (root |%s|) |%s|)))", n, n, n, n))
 		}
 		return t
 	}
@@ -1032,12 +1051,22 @@ func (v *fnVC) run() {
 		}
 	}
 	v.addAxioms()
+	if v.P.seen["inTree"] {
+		// inTree(c, x) speaks about the configuration trees as they are at function entry: an object allocated
+		// later belongs to none of them (callee frames tree(t) are read the same way; DESIGN.md section 4)
+		v.memSrt[allocMem] = "Bool"
+		v.P.add("inTreeAlloc", fmt.Sprintf("(assert (forall ((c Int) (x Int)) (! (=> (inTree c x) (select %s x)) :pattern ((inTree c x)))))", v.mem0(allocMem)))
+		v.notes = append(v.notes, "assume: tree(c) denotes the objects of c's tree at function entry (treeOK: configuration trees share no objects; each child is merged at most once per call)")
+	}
 }
 
 // addAxioms adds the (heap-independent) axioms of the contract files that speak about ghost functions
 // this function's obligations mention. They are listed as assumptions in the evidence.
 func (v *fnVC) addAxioms() {
 	for i, ax := range v.e.spec.Axioms {
+		if v.con == nil || !hasStr(v.con.Uses, v.e.spec.AxiomGroups[i]) {
+			continue // axioms are opt-in per function (//@ uses <group>): they cost every proof they are added to
+		}
 		ids := map[string]bool{}
 		collectCalls(ax.C.E, ids)
 		relevant := false
@@ -1181,6 +1210,12 @@ func (v *fnVC) instr(in ssa.Instruction) {
 		v.assume(and(app(">", a, "0"), eq(app("akind", a), "0")))
 		v.distinctFromAllocs(a)
 		v.vals[x] = a
+		if isVarCell(x) {
+			// the cell of a source variable is never part of a configuration tree
+			v.allocs[len(v.allocs)-1].alloc = x
+			v.P.add("inTree", inTreeDecl)
+			v.assume(fmt.Sprintf("(forall ((t Int)) (! (not (inTree t %s)) :pattern ((inTree t %s))))", a, a))
+		}
 		elem := x.Type().Underlying().(*types.Pointer).Elem()
 		v.space = v.spaceOf(x)
 		v.store(a, elem, v.P.zero(elem))
@@ -1399,6 +1434,15 @@ func (v *fnVC) instr(in ssa.Instruction) {
 			v.havoc(val)
 		}
 	}
+}
+
+// isVarCell: the Alloc is the memory cell of a named source variable (not a composite literal, new(T), ...).
+func isVarCell(x *ssa.Alloc) bool {
+	switch x.Comment {
+	case "", "complit", "new", "varargs", "slicelit", "makeslice", "append", "arraylit":
+		return false
+	}
+	return !strings.Contains(x.Comment, ".") && !strings.Contains(x.Comment, " ")
 }
 
 func exprText(in ssa.Instruction) string {
